@@ -656,6 +656,29 @@ def i8(prog: Program, chk: Check) -> None:
     containers_keep_values(prog, chk, "I8", which={'AugmentedMPS'})
 
 
+def i9(prog: Program, chk: Check) -> None:
+    chk.rule("I9", "the traces that turn the chain tensors into reduced density matrices belong to "
+             "the current chain state: a back-end method that recomputes derived state only when "
+             "it is missing (early return while the cached attribute is set) is reset by every "
+             "method that changes the tensors it was computed from - otherwise a read-out between "
+             "two compute calls (get_current_density_matrix) makes the next recorded step use the "
+             "traces of the previous one, in every execution mode", floor=1)
+    from rules.c20 import guarded_caches
+    gc, n_guards = guarded_caches(prog)
+    for (gu, attr, mu, written) in gc:
+        if "pt_tebd" not in gu.qual:
+            continue
+        chk.saw(gu)
+        chk.add("I9", gu, f"cache {attr} (guarded early return) vs "
+                f"{mu.qual.split(':')[1]} writing {written}", False,
+                f"{mu.qual.split(':')[1]} changes {written} without resetting {attr}: the states "
+                f"recorded after a read-out are those of the earlier step", gu.node)
+    units = [u for u in prog.units_in("backends.pt_tebd_backend") if not isinstance(u.node, ast.Lambda)]
+    chk.add("I9", prog.module("backends.pt_tebd_backend"),
+            f"{len(units)} functions of the PT-TEBD back end scanned, {n_guards} guarded caches in "
+            f"the package", len(units) >= 15, "" if len(units) >= 15 else "the module shrank")
+
+
 def run(prog: Program, chk: Check) -> None:
     chk.explanation = (
         "Decides two clauses of C10: 'all execution modes are usable' as far as name resolution "
@@ -678,3 +701,4 @@ def run(prog: Program, chk: Check) -> None:
     chk.call(i5_i6, prog, chk)
     chk.call(i7, prog, chk)
     chk.call(i8, prog, chk)
+    chk.call(i9, prog, chk)
